@@ -493,7 +493,61 @@ FIXED_CAPTURE_SCENARIOS = [
     ("def hk(x, y): return x.trks.Select(lambda e: e.pt + y).Sum()", "lambda e: e.jets.Select(lambda j: hk(j, e.met * 100)).Sum()", "e"),
     ("def hk(x): return [j.pt + x.met for j in x.jets]", "lambda j: hk(j)", "j"),
     ("def hk(x, j_1): return x.jets.Select(lambda j: j.pt + x.met + j_1)", "lambda j: hk(j, 1)", "j"),
+    # helpers with defaulted parameters, called with none, some (positionally / by keyword) and all of them
+    ("def hk(x, s=2, t=7): return x * s + t", "lambda e: (hk(e.met, 3), hk(e.met), hk(e.met, t=1), hk(e.met, 3, 5), hk(e.met, s=4))", "e"),
+    ("def hk(x, s=2, t=7, u=100): return x * s + t - u", "lambda e: e.jets.Select(lambda j: hk(j.pt, 3) + hk(j.pt, 3, 4) + hk(e.met, u=1))", "e"),
+    ("hk = lambda x, s=2, t=7: x * s + t", "lambda e: (hk(e.met, 3), hk(e.met))", "e"),
+    # two binders nested inside the helper; the argument mentions the name of the INNER one
+    ("def hk(x, y): return x.jets.Select(lambda k: x.els.Where(lambda j: j.pt < y.pt - k.pt).Count())",
+     "lambda e: e.jets.Select(lambda j: hk(e, j))", "e"),
+    ("def hk(x, y): return x.jets.Select(lambda k: x.els.Where(lambda j: j.pt < y.pt - k.pt).Count())",
+     "lambda j: j.jets.Select(lambda k: hk(j, k))", "j"),
+    ("def hk(x, y): return x.jets.Select(lambda k: [j.pt + k.pt for j in x.els if j.pt < y.met])", "lambda j: hk(j, j)", "j"),
+    ("def hk(x, y): return x.jets.Select(lambda k: x.els.Select(lambda j: x.jets.Where(lambda t: t.pt + j.pt + k.pt < y.met).Count()))",
+     "lambda t: hk(t, t)", "t"),
 ]
+
+
+CONTAINER_VALUES = [
+    "[1.0, float('inf')]", "(1, float('nan'))", "[object()]", "(decimal.Decimal('1.5'),)", "[1, 2]", "(3, 4)", "{'a': 1}", "[1, [2, float('-inf')]]",
+    "(fractions.Fraction(1, 3), 2)", "[G1, Cfg]", "(math, 1)", "['a', b'b', None]", "[]", "()", "[1e400]", "(-0.0, 1)", "[True, 2.5, 'x']",
+]
+
+
+def container_capture_oracle(ctx):
+    """captured containers: the call either refuses (ValueError: the value cannot be transported as a literal) or records a
+    lambda that evaluates to the Python value; never a query that mentions names bound nowhere or does not parse"""
+    DS = _dataset_cls()
+    events = [pyworld.to_world(e) for e in rich_dataset(ctx.rng)][:3]
+    for val in CONTAINER_VALUES:
+        text = HEADER + f"\nimport decimal, fractions\nV = {val}\n\ndef build(ds):\n    ref = (lambda e: (e.met, V))\n    s = ds.Select(lambda e: (e.met, V))\n    return s, ref\n"
+        mod = srcmod.make_module(text, "container")
+        try:
+            ctx.count("container:" + val, True, tags=["captured-container"])
+            try:
+                s, ref = mod.build(DS())
+            except ValueError:
+                ctx.dist["captured-container refused (ValueError)"] += 1
+                continue
+            except Exception as e:
+                ctx.violate({"captured": val}, f"capturing a container raised {type(e).__name__} instead of recording it or refusing with ValueError")
+                continue
+            ctx.dist["captured-container recorded"] += 1
+            lam = s.query_ast.args[1]
+            for ev in events:
+                want = pyworld.from_world(ref(ev))
+                try:
+                    got = eval_recorded(lam, mod, ev)
+                except Exception as e:
+                    ctx.violate({"captured": val, "recorded_lambda": ast.unparse(lam)[:200], "error": f"{type(e).__name__}: {e}"[:120]},
+                                "a captured container was recorded as a query that cannot be evaluated (names bound nowhere / not a literal)")
+                    break
+                if not (got == want or repr(got) == repr(want)):
+                    ctx.violate({"captured": val, "recorded_lambda": ast.unparse(lam)[:200], "python": repr(want)[:120], "recorded": repr(got)[:120]},
+                                "a captured container was recorded with a different value")
+                    break
+        finally:
+            srcmod.drop_module(mod)
 
 
 def known_capture_oracle(ctx):
